@@ -19,8 +19,21 @@ K_update   == [Base EXCEPT !.kind = "update", !.assign = << <<1, Fa(2)>>, <<2, <
 K_fail     == [Base EXCEPT !.items = <<E(Pz(Fa(1))), E(<<"NR">>)>>]
 K_parsefail == [Base EXCEPT !.items = <<E(Fa(1)), <<"unnest", <<"flds", <<1, 2>>>>>>, <<"unnest", <<"flds", <<2, 1>>>>>> >>]
 
+\* singletons (cfg substitutions need identifiers)
+S_plain == {K_plain}
+S_top == {K_top}
+S_sorted == {K_sorted}
+S_count == {K_count}
+S_agg == {K_agg}
+S_unnest == {K_unnest}
+S_update == {K_update}
+S_fail == {K_fail}
+S_parsefail == {K_parsefail}
+
 Kinds == {K_plain, K_top, K_sorted, K_count, K_agg, K_unnest, K_update, K_fail, K_parsefail}
 KindsQ == {K_plain, K_top, K_agg, K_unnest, K_fail}
 R_iso == {<<S(97), S(98)>>, <<S(98), S(97)>>, <<S(112), S(97)>>}
 R_iso2 == {<<S(97), S(98)>>, <<S(112), S(97)>>}
+\* for exhaustive schedule emission: only tables of exactly two records a/b, p/a are kept (state constraint)
+R_isoFixed == R_iso2
 =============================================================================
